@@ -66,6 +66,8 @@ pub struct Shard {
     pub known_hits: BTreeMap<String, (String, u64)>,
     pub inconclusive: Vec<String>,
     pub notes: Vec<String>,
+    /// named sets merged by union across shards, reported as `distinct_<name>` counts
+    pub sets: BTreeMap<String, BTreeSet<u64>>,
 }
 
 static REPLAY_N: std::sync::atomic::AtomicU64 = std::sync::atomic::AtomicU64::new(0);
@@ -79,6 +81,9 @@ impl Shard {
         if n > *e {
             *e = n;
         }
+    }
+    pub fn set_insert(&mut self, name: &str, v: u64) {
+        self.sets.entry(name.to_string()).or_default().insert(v);
     }
     pub fn sample(&mut self, v: Value) {
         if self.samples.len() < 3 {
@@ -117,6 +122,7 @@ impl Shard {
             "known_hits": self.known_hits.iter().map(|(k, v)| json!({"sig": k, "description": v.0, "count": v.1})).collect::<Vec<_>>(),
             "inconclusive": self.inconclusive,
             "notes": self.notes,
+            "sets": self.sets.iter().map(|(k, v)| (k.clone(), json!(v.iter().collect::<Vec<_>>()))).collect::<Map<String, Value>>(),
         })
     }
 
@@ -161,6 +167,12 @@ impl Shard {
         if let Some(a) = v.get("notes").and_then(|x| x.as_array()) {
             s.notes = a.iter().filter_map(|x| x.as_str().map(|s| s.to_string())).collect();
         }
+        if let Some(m) = v.get("sets").and_then(|x| x.as_object()) {
+            for (k, a) in m {
+                let set: BTreeSet<u64> = a.as_array().map(|a| a.iter().filter_map(|x| x.as_u64()).collect()).unwrap_or_default();
+                s.sets.insert(k.clone(), set);
+            }
+        }
         s
     }
 
@@ -188,6 +200,9 @@ impl Shard {
             e.1 += v.1;
         }
         self.inconclusive.extend(o.inconclusive);
+        for (k, v) in o.sets {
+            self.sets.entry(k).or_default().extend(v);
+        }
         for n in o.notes {
             if self.notes.len() < 20 && !self.notes.contains(&n) {
                 self.notes.push(n);
@@ -218,6 +233,9 @@ pub fn write_evidence(meta: &Meta, tier: &str, seed: u64, total: &Shard, wall_s:
     let mut observed = Map::new();
     for (k, v) in total.counters.iter() {
         observed.insert(k.clone(), json!(v));
+    }
+    for (k, v) in total.sets.iter() {
+        observed.insert(format!("distinct_{}", k), json!(v.len()));
     }
     cov.insert("observed".into(), Value::Object(observed));
     cov.insert("shards_failed".into(), json!(shards_failed));
